@@ -81,7 +81,11 @@ Inductive qcase :=
    obs_block[i] = Query/TraceBlock produced a trace for transaction i.  The model's TraceTx / TraceBlock
    (Model/Query.v trace_tx / trace_block over skel_apply) must say the same for every transaction that got through
    the ante handler. *)
-| QTrace (m : nmap) (txs : list btx) (obs_tx obs_block : list bool).
+| QTrace (m : nmap) (txs : list btx) (obs_tx obs_block : list bool)
+(* CheckTx of consecutive transactions of one sender between two commits: n = committed sequence, obs = the sender's
+   sequence read from the CHECK STATE after each admitted transaction.  The model runs a trial execution that even
+   overwrites the sequence key: the branch is dropped, the check state keeps the ante handler's increment only. *)
+| QTrial (n : N) (obs : list N).
 
 Definition is_some {A} (o : option A) : bool := match o with Some _ => true | None => false end.
 
@@ -109,6 +113,9 @@ Definition q_ok (c : qcase) : bool :=
       | Some o => call_gas gas_cap args_gas =? o + 21002
       | None => call_gas gas_cap args_gas <? 21017
       end
+  | QTrial n obs =>
+      listN_eqb (checktx_seqs (length obs) (fun k => if k =? 0 then Some n else None) 0
+                   (PDo (KvSet 0 999) (fun _ => PRead 0 (fun v => PRet v)))) obs
   | QTrace m txs obs_tx obs_block =>
       Nat.eqb (length obs_tx) (length txs) && Nat.eqb (length obs_block) (length txs) &&
       forallb (trace_case_ok m txs obs_tx obs_block) (seq 0 (length txs))
